@@ -11,6 +11,9 @@ for pid in ids:
         na.append(dict(property_id=pid, reason="check not built yet in this session (planned, see DESIGN.md section 3); nothing is claimed for it"))
         continue
     s = json.load(open(sp))
+    if not s.get("ready"):
+        na.append(dict(property_id=pid, reason="check under construction in this session (harness exists but has not yet been accepted after a full clean run); nothing is claimed for it yet"))
+        continue
     if s.get("disabled"):
         na.append(dict(property_id=pid, reason=s["disabled"]))
         continue
